@@ -111,6 +111,10 @@ def run_case(case, ctx):
             b, k = reads.check_ops(r, ops, lambda op: reads.expected_2d(V, op))
             bad += b
             n += k
+            # ... and with ordinals carried by NumPy integers (any dtype that holds them)
+            b, k = reads.check_ops(r, [reads.numpy_args(op, rng) for op in rng.sample(ops, min(len(ops), 12))], lambda op: reads.expected_2d(V, op), tag='numpy-int-args:')
+            bad += b
+            n += k
         else:
             nI, nX, nZ = V.shape
             gm = grid_map(sp)
@@ -132,6 +136,10 @@ def run_case(case, ctx):
                 ops += [('read_correlated_diagonal', (d,)) for d in range(-nX + 1, nI)]
                 ops += [('read_anticorrelated_diagonal', (d,)) for d in range(nI + nX - 1)]
             b, k = reads.check_ops(r, ops, lambda op: reads.expected_3d(V, op, gm))
+            bad += b
+            n += k
+            # ... and with ordinals carried by NumPy integers (any dtype that holds them)
+            b, k = reads.check_ops(r, [reads.numpy_args(op, rng) for op in rng.sample(ops, min(len(ops), 16))], lambda op: reads.expected_3d(V, op, gm), tag='numpy-int-args:')
             bad += b
             n += k
             # by line number / coordinate
